@@ -382,6 +382,9 @@ func (mt *MetricTable) ApplyRules(rules MetricRules) *MetricTable {
 	}
 
 	applied := NewMetricTable(mt.maxTableSize, mt.metricPeriodStart)
+	// The renamed table is the same payload: keep counting its failed
+	// delivery attempts.
+	applied.failedHarvests = mt.failedHarvests
 
 	for name, s := range mt.metrics {
 		_, out := rules.Apply(name)
